@@ -390,8 +390,8 @@ Proof.
   unfold rd_zrle_stream. apply safe_bind_get. intros s0 Hs0 ts0. destruct (fixed s0 11).
   - assert (G : safeP (fun r : bool * list Z => bytes_ok (snd r))
                   (z <- rd_zblock ;; let '(sid', fresh, ok, data) := z in s <- get_st ;;
-                   if negb (sid' =? 5) then (fun _ _ => Desync) else
-                   if Bool.eqb fresh (c_zrlez s) then (fun _ _ => Desync) else upd_st (fun s => set_zrlez s true) ;;; ret (ok, data))).
+                   if negb (sid' =? 5) then desyncM 4 else
+                   if Bool.eqb fresh (c_zrlez s) then desyncM 4 else upd_st (fun s => set_zrlez s true) ;;; ret (ok, data))).
     { eapply safe_bind; [auto with snd|apply safe_rd_zblock_ok|]. intros [[[sid' fresh] ok] data] Hd. cbn [snd] in Hd.
       apply safe_bind_get. intros s Hs ts. destruct (negb (sid' =? 5)); [exact I|].
       destruct (Bool.eqb fresh (c_zrlez s)); [exact I|exact Hd]. }
